@@ -25,3 +25,8 @@
   (ite (= t 15) 3      ; BLOCK_START_TRIM ~ BLOCK_START
   (ite (= t 16) 4      ; BLOCK_END_TRIM   ~ BLOCK_END
    t)))))
+; C17: wraps(a, b) — the cause b can be found from a with errors.Is/errors.As (reflexive, transitive)
+(declare-fun wraps (Iface Iface) Bool)
+; reflexivity and transitivity are instantiated by the generator where they are needed (at each
+; return and at each wrapper call) instead of being asserted as quantified axioms
+(declare-fun errIs (Iface Iface) Bool)
